@@ -51,10 +51,20 @@ Section Param.
       rewrite Ha. reflexivity.
   Qed.
 
+  (* a scrutinee that contains no further match first (PArrayIndex binds the result of a nested match with
+     `let '(o, l, i) := .. in`), any scrutinee otherwise *)
   Ltac crush_matches :=
-    repeat match goal with
-           | |- context [match ?X with _ => _ end] => destruct X
-           end.
+    repeat (first
+      [ match goal with
+        | |- context [match ?X with _ => _ end] =>
+            lazymatch X with
+            | context [match _ with _ => _ end] => fail
+            | _ => destruct X
+            end
+        end
+      | match goal with
+        | |- context [match ?X with _ => _ end] => destruct X
+        end ]; cbv beta iota).
 
   (** replacing a constant-like parameter by another constant-like parameter of the same value changes neither the
       outcome of next() nor the rest of the state; the parameter itself is left as it was *)
@@ -92,8 +102,16 @@ Section Param.
     intros H Hq Hs.
     destruct p; destruct i as [|[|i]]; cbn [vfield] in H; try discriminate; inversion H; subst; clear H;
       cbn [with_vfield] in Hs; unfold_step_in Hs; unfold_step; rewrite ?Hq;
-      repeat match type of Hs with
-             | context [match ?X with _ => _ end] => destruct X eqn:?
-             end; try discriminate; inversion Hs; subst; split; reflexivity.
+      repeat (first
+        [ match type of Hs with
+          | context [match ?X with _ => _ end] =>
+              lazymatch X with
+              | context [match _ with _ => _ end] => fail
+              | _ => destruct X eqn:?
+              end
+          end
+        | match type of Hs with
+          | context [match ?X with _ => _ end] => destruct X eqn:?
+          end ]; cbv beta iota in Hs |- *); try discriminate; inversion Hs; subst; split; reflexivity.
   Qed.
 End Param.
